@@ -442,6 +442,10 @@ def run(ctx):
                     ctx.bad('C18.5-gen-event-reply', 'call', 'there is a path from the handler call to the end of handle_message that never looks up the caller: on it the $gen_call gets no {Reference, Reply} at all',
                             ctx.where(GE, hb), key='PAIR:edp_node::gen_event::GenEventManager::handle_message:call-without-reply')
 
+    from ..families import check_sibling_ctors as _sib
+    ctx.rule('C18.4-mailbox-constructors', 'Mailbox::new and ::with_capacity differ only in the channel they create', floor=1)
+    _sib(ctx, P, 'C18.4-mailbox-constructors', 'edp_node::mailbox::Mailbox', ['edp_node::mailbox::Mailbox::new', 'edp_node::mailbox::Mailbox::with_capacity'], {'receiver', 'sender'})
+
 
 def _param_name(B, base, projs):
     """name of the async-fn parameter (captured upvar) or local an origin denotes"""
